@@ -52,6 +52,19 @@ class Eng(Interp):
     def sym_obj(self, name, cls):
         return Obj(z3.Const(name, V), cls)
 
+    def sym_list(self, name, cls=None, kind='list'):
+        """symbolic list of arbitrary length whose elements are objects of class cls (or opaque values)"""
+        term = z3.Const(name, V)
+        n = z3.Int(f'len_{name}')
+        self.fact(n >= 0)
+        holder = SV(term, 'val', tag='list')
+
+        def elem(i):
+            if cls is None:
+                return self.app('getitem', [holder, SV(i, 'int')])
+            return self.app('getitem', [holder, SV(i, 'int')], 'obj', cls=cls)
+        return SeqV(length=n, elem=elem, kind=kind, term=term)
+
     def select(self, arr, index):
         """pointwise content of an ArrV at `index` (tuple of z3 Int / python int) as a CaseV"""
         index = tuple(z3.IntVal(i) if isinstance(i, int) else i for i in index)
@@ -204,7 +217,10 @@ class FuncCheck:
         self.cur = (p, k)
         # canary: the path condition (with the library facts) must be satisfiable
         if E.sat(timeout_ms=10000) == z3.unsat:
-            self.results.setdefault('canary', []).append(('refuted', None, 0.0, k, None, 'z3'))
+            # the path turned out infeasible (a branch whose feasibility could not be decided when it was taken):
+            # it is not a path of the function; vacuity is judged over the feasible paths only
+            p.outcome = 'infeasible'
+            return
         if p.outcome == 'raise':
             cond = allow_raise(E, p.args, p.kwargs, p) if allow_raise else None
             if cond is None:
